@@ -30,8 +30,9 @@ EXPLANATION = "see DESIGN.md C03"
 
 
 def run(run):
-    from props._std import run_bounded
+    from props._std import run_bounded, run_lean
 
     if PROVE:
         run.prove(PROVE)
+    run_lean(run)
     run_bounded(run, "C03")
